@@ -110,6 +110,11 @@ class Ctx:
         self.notes = []
         self.findings = load_findings(pid)
 
+    def stage(self, name):
+        now = time.time()
+        self.notes.append("%s %.1fs" % (name, now - getattr(self, "_last", self.t0)))
+        self._last = now
+
     # ------------------------------------------------------------------ build
     def build(self, race=False):
         """Builds the harness against the current /repo tree with hooks on."""
@@ -310,9 +315,10 @@ class Ctx:
     def violation(self, what, replay_obj):
         os.makedirs(os.path.join(EVID, "replay"), exist_ok=True)
         n = len(self.violations) + 1
-        path = os.path.join(EVID, "replay", "%s-%d.json" % (self.pid, n))
-        with open(path, "w") as f:
-            json.dump({"property": self.pid, "what": what, "seed": self.seed, "tier": self.tier, **replay_obj}, f, indent=1)
+        path = os.path.join(EVID, "replay", "%s-%d.json" % (self.pid, min(n, 25)))
+        if n <= 25:   # at most 25 replay files per run; every violation is still counted
+            with open(path, "w") as f:
+                json.dump({"property": self.pid, "what": what, "seed": self.seed, "tier": self.tier, **replay_obj}, f, indent=1)
         self.violations.append({"what": what, "replay": path})
         return path
 
@@ -362,17 +368,18 @@ class Ctx:
 
 
 def load_findings(pid):
-    path = os.path.join(ROOT, "known_findings.jsonl")
+    """Open findings of a property from /verif/KNOWN_FINDINGS (fixed: lines suppress nothing)."""
+    path = os.path.join(ROOT, "KNOWN_FINDINGS")
     out = []
     if os.path.exists(path):
         with open(path) as f:
             for line in f:
                 line = line.strip()
-                if not line or line.startswith("#"):
+                if not line.startswith("finding:"):
                     continue
-                o = json.loads(line)
-                if o.get("property") == pid and o.get("status") == "open":
-                    out.append(o)
+                m = re.match(r"finding:\s+property=(\S+)\s+id=(\S+)\s+signature=(.*?)\s+what=(.*)$", line)
+                if m and m.group(1) == pid:
+                    out.append({"property": pid, "id": m.group(2), "signature": json.loads(m.group(3)), "what": m.group(4)})
     return out
 
 
